@@ -5,7 +5,8 @@
      cp <scid> <cap | -> <recv> <n1> <n2>
      cu <scid> <dir> <disabled> <ts> <cltv> <min> <max> <base> <prop> <chainOk> <dontFwd> <verify> <signer>
      na <node> <ts> <payload> <verify> <sigOk>
-     fc <scid> <now>      fn <id> <now>      pr <t>
+     fc <scid> <now>      fn <id> <now>      pr <t>      tc / tn = non-permanent failures
+     rl ca|cu <excess> / rl na <excess> <excessAddr>   relay expression of handle_*   gc <start> / gn <start|->   get_next_*
      rgs <latestSeen> <now | -> <dCltv> <dMin> <dBase> <dProp> <dMax>
          N <k> (<node> <flag>)^k  A <k> (<scid> <cap | -> <n1> <n2>)^k  U <k> (<scid> <flags> <cltv> <min> <base> <prop> <max>)^k
                           a rapid-gossip-sync snapshot (RapidGossipSync::update_network_graph_no_std)
@@ -75,8 +76,13 @@ def c17Utxo (s : String) : Utxo :=
 def c17WrongScript : List String → Bool
   | ["ca", _, _, _, _, _, _, _, _, _, _, ux, _] => ux.startsWith "w"
   | _ => false
-def c17Answer (ws : List String) (o : Outcome) : String :=
+def c17Answer (ws : List String) (op : Op) (o : Outcome) : String :=
   let out := c17ShowOutcome o
+  -- the signed handlers of P2PGossipSync answer Ok(relay): `ok` = forward to peers, `ok-norelay` = accepted, not forwarded
+  -- (the op lines carry no excess data: the relay expressions are evaluated at length 0 here, at other lengths by `rl`)
+  let out := match op, o with
+    | .msg m, .accept => if Impl.msgVerify m && !Impl.relayExpr m Impl.noExcess Impl.noExcess then "ok-norelay" else out
+    | _, _ => out
   if c17WrongScript ws then out.replace "UtxoUnknownTx" "UtxoScriptMismatch" else out
 
 def c17b (s : String) : Bool := s == "1"
@@ -200,7 +206,7 @@ def c17 : Drv where
         match c17Parse ws with
         | some op =>
           let r := Async.step st.a (.base op)
-          (st.next r.1 (Order.movedScid st.a.g op r.2), c17Answer ws r.2)
+          (st.next r.1 (Order.movedScid st.a.g op r.2), c17Answer ws op r.2)
         | none => (st, "bad-op")
 
 end Ldk.Driver
